@@ -39,4 +39,25 @@ theorem hintAvailable_eq (pool : List WP) (hint : Option Nat) :
   | none => rfl
   | some h => simp only [Option.bind_some]; cases getW pool h <;> rfl
 
+theorem hintProcessing_eq (pool : List WP) (hint : Option Nat) (key : Nat) :
+    hintProcessing pool hint key = match hint.bind (fun x => getW pool x) with
+      | some p => p.isProcessingKey key
+      | _ => false := by
+  unfold hintProcessing
+  cases hint with
+  | none => rfl
+  | some h => simp only [Option.bind_some]; cases getW pool h <;> rfl
+
+/-- `pool.iter().find(|(_, w)| f(w)).map(|(a, _)| *a)` = `find?` then the slot id -/
+theorem find_pairs (pool : List WP) (f : WP → Bool) :
+    Option.map (fun (x : Nat × WP) => x.1) (List.find? (fun (x : Nat × WP) => f x.2) (pool.map fun p => (p.wid, p)))
+      = (pool.find? f).map (·.wid) := by
+  induction pool with
+  | nil => rfl
+  | cons p ps ih =>
+    simp only [List.map_cons, List.find?_cons]
+    cases hf : f p
+    · simpa [hf] using ih
+    · simp [hf]
+
 end GenRouting
